@@ -372,7 +372,8 @@ def obligations(tier):
                     out += specs("C04.ineq", [{"typ": typ, "sys": s, "m": m, "vname": vn}], ob_ineq, 5)
                 if dd <= 4:
                     out += specs("C04.ineq.flag", [{"typ": typ, "sys": s, "m": m}], ob_ineq_flag, 5)
-    out += specs("C04.ineq.vi", [{"sys": "Q1", "vname": v} for v in tiers(tier, ["cplx"], ["id", "rot", "cplx"])], ob_ineq_vi, 8)
+    # the variational inequality is a genuinely non-linear query (seconds to minutes in nlsat): thorough tier only
+    out += specs("C04.ineq.vi", [{"sys": "Q1", "vname": v} for v in tiers(tier, [], ["id", "rot", "cplx"])], ob_ineq_vi, 8)
     return out
 
 
